@@ -71,3 +71,37 @@ Theorem C15_cancel : forall c tc pre t post, sorted_from tc pre ->
   ka s' = None /\ dc s' = None /\ pings s' = pings s /\ torn s' = torn s.
 Proof. exact cancel_on_close. Qed.
 Print Assumptions C15_cancel.
+
+(* "every ping is answered by a pong carrying the same number, and pings/pongs may appear between any two
+   tokens without disturbing the message being decoded" -- token level: what reaches the object grammar is
+   the stream with PING/PONG deleted; the PONG numbers written are those of the PINGs, one each, in order *)
+Theorem C15_ping_pong_stream : forall toks,
+  rx_tokens toks = (filter (fun t => negb (is_pp t)) toks, map fst (filter (fun t => snd t =? tok_PING) toks)).
+Proof. exact rx_tokens_spec. Qed.
+Print Assumptions C15_ping_pong_stream.
+
+Theorem C15_ping_transparent : forall pre post n,
+  rx_tokens (pre ++ (n, tok_PING) :: post) =
+  (fst (rx_tokens (pre ++ post)), snd (rx_tokens pre) ++ n :: snd (rx_tokens post)).
+Proof. exact ping_transparent. Qed.
+Print Assumptions C15_ping_transparent.
+
+Theorem C15_pong_ignored : forall pre post n, rx_tokens (pre ++ (n, tok_PONG) :: post) = rx_tokens (pre ++ post).
+Proof. exact pong_ignored. Qed.
+Print Assumptions C15_pong_ignored.
+
+(* byte level, all ping numbers below 2^448 (64 header digits): the bytes of the translated sendPING n are
+   read by the header scan as (n, PING); the reply is the translated sendPONG n, read as (n, PONG) by the peer;
+   a PONG is answered with nothing.  Uses the translated int2b128 / b1282int (gen/BananaGen.v). *)
+Theorem C15_pong_echo : forall n, 0 <= n < 2 ^ 448 ->
+  exists ping pong,
+    sendPING n [] = Ok ping /\ scan_token ping = HTok n tok_PING [] /\
+    reply_bytes n tok_PING = Ok pong /\ scan_token pong = HTok n tok_PONG [] /\
+    reply_bytes n tok_PONG = Ok [].
+Proof. exact pong_echo. Qed.
+Print Assumptions C15_pong_echo.
+
+(* ... and that range is exact: a ping number >= 2^448 is refused by the receiver's header limit *)
+Theorem C15_ping_number_limit : forall n, 2 ^ 448 <= n -> exists bs, sendPING n [] = Ok bs /\ scan_token bs = HBad.
+Proof. exact ping_number_too_big. Qed.
+Print Assumptions C15_ping_number_limit.
